@@ -7,11 +7,13 @@ import (
 	"errors"
 	"fmt"
 	"log/slog"
+	"math"
 	"runtime"
 	"strings"
 	"sync"
 	"sync/atomic"
 	"testing"
+	"time"
 
 	"github.com/whoisnian/glb/logger"
 	"pgregory.net/rapid"
@@ -301,7 +303,16 @@ func TestWithRawArgsEqualsCallSite(t *testing.T) {
 		st := setup{kind: rapid.IntRange(0, 2).Draw(t, "handler"), colorful: false, addSource: false}
 		ctxChain := lm.GenChain(genOpts, 2).Draw(t, "context")
 		genValue := rapid.Custom(func(t *rapid.T) any {
-			switch rapid.IntRange(0, 7).Draw(t, "valueKind") {
+			switch rapid.IntRange(0, 9).Draw(t, "valueKind") {
+			case 8:
+				// every Go scalar type a caller may write after a key, at the edges of its range: what With makes of the
+				// pair is what the call site makes of it
+				return rapid.SampledFrom([]any{uint64(math.MaxUint64), uint64(1) << 63, uint64(1)<<63 - 1, uint64(0), uint(math.MaxUint64), uint32(math.MaxUint32), uint16(65535), uint8(255), uintptr(math.MaxUint64),
+					int8(-128), int16(-32768), int32(math.MinInt32), int(math.MinInt64), int64(math.MaxInt64), float32(1.5), float32(math.MaxFloat32), math.MaxFloat64, math.SmallestNonzeroFloat64, math.Inf(-1), -0.0,
+					'x', byte('y'), complex(1, 2), time.Duration(math.MinInt64), time.Duration(90 * time.Minute), time.Unix(0, 0).UTC(), time.Date(2262, 4, 11, 23, 47, 16, 854775807, time.UTC)}).Draw(t, "scalar")
+			case 9:
+				return rapid.OneOf(rapid.Custom(func(t *rapid.T) any { return rapid.Uint64().Draw(t, "u64") }), rapid.Custom(func(t *rapid.T) any { return rapid.Float64().Draw(t, "f64") }),
+					rapid.Custom(func(t *rapid.T) any { return uint(rapid.Uint64().Draw(t, "u")) }), rapid.Custom(func(t *rapid.T) any { return rapid.Int32().Draw(t, "i32") })).Draw(t, "number")
 			case 0:
 				return lm.SmallString().Draw(t, "s")
 			case 1:
